@@ -6,6 +6,9 @@
                 (condition language) and token stream;
      - CBubble: the real `Bubble` and [Bubble.bubble_cl];
      - CCats:   `Token::category()` bits and the generated [category];
+     - CWrite:  the real `TokenStream::write_to` (text of a token stream, with the
+                indentation it writes in front of the continuation lines of
+                multi-line comments) and [Stages.write_to], byte for byte;
      - CYr:     the real `yr fmt` binary on temporary files (in place and
                 --check, several files per invocation) against the model of
                 cli/src/commands/fmt.rs: the file afterwards is the library's
@@ -100,6 +103,7 @@ Definition check_yr (trunc check : bool) (files : list yr_file) (exit : N) : boo
      end) files expect.
 
 Inductive case :=
+| CWrite (inp : list token) (res : option (list N))     (* TokenStream::write_to *)
 | CYr (check : bool) (files : list yr_file) (exit : N)
 | CStage (h : hstage) (inp : list token) (res : option (list token))
 | CProc (pt : N) (rules : list (cexpr * action)) (inp : list token) (limit : nat)
@@ -132,6 +136,7 @@ Definition check_case (c : case) : bool :=
       | None, None => true
       | _, _ => false
       end
+  | CWrite inp res => match res with Some r => bytes_eqb (write_to inp) r | None => false end
   | CYr check files exit => check_yr yr_fmt_truncates check files exit
   | CStage h inp res =>
       match run_hstage h inp, res with
